@@ -74,7 +74,7 @@ SetForm(a, f) == f # h[a].form /\ tok' = tok /\ Upd(a, [h[a] EXCEPT !.form = f],
 SetFrame(a, fr) ==
   fr # h[a].frame /\ ~(Aliased(a) /\ h[a].cov.present /\ h[a].cov.fr = h[a].frame) /\ tok' = tok /\ Upd(a, [h[a] EXCEPT !.frame = fr, !.cov = CovAfterFrame(h[a], fr)], "setframe", fr, "-")
 FailForm(a) == Fail(a, "failform", "no_such_form")
-FailFrame(a, which) == Fail(a, "failframe", which)              \* unknown name | Hill | unconnected
+FailFrame(a, which) == Fail(a, "failframe", which)              \* unknown name | Hill | unconnected axes | unlinked centre (axes fine)
 Assign(a, how, i) == tok' = tok + 1 /\ Upd(a, [h[a] EXCEPT !.val = tok], "assign", how, i)
 WrongName(a) == Fail(a, "wrongname", "-")                        \* a coordinate name of another form
 SetScalar(a) == tok' = tok /\ Upd(a, [h[a] EXCEPT !.scal = @ + 1], "setscalar", "-", "-")
@@ -98,7 +98,7 @@ Next ==
        \/ \E f \in Forms, fr \in Frames : (f # h[a].form \/ fr # h[a].frame) /\ CopyConv(a, f, fr)
        \/ \E f \in Forms : SetForm(a, f)
        \/ \E fr \in Frames : SetFrame(a, fr)
-       \/ FailForm(a) \/ \E w \in {"unknown", "Hill", "unconnected"} : FailFrame(a, w)
+       \/ FailForm(a) \/ \E w \in {"unknown", "Hill", "unconnected", "nocentre"} : FailFrame(a, w)
        \/ \E how \in {"index", "name", "alias"}, i \in {1, 4, 6} : Assign(a, how, i)
        \/ WrongName(a)
        \/ SetScalar(a) \/ MutList(a) \/ AppendMan(a) \/ ReplaceMans(a)
